@@ -56,6 +56,7 @@ def lossFilter (tag : Nat) : Option (List Float → List Float) :=
   | 1 => some (fun l => l.map (fun x => -x))
   | 2 => some (fun l => l.map (fun x => x * 2.0))
   | 3 => some List.reverse
+  | 4 => some (fun l => l.map (fun x => x * 0.5))
   | _ => none
 
 /-- stub single-coordinate losses (exactly representable on small integers) -/
